@@ -216,6 +216,12 @@ fn fam_deflate(s: &Script, st: &mut Stats) -> Result<RunInfo, Violation> {
         if rc != 0 {
             return viol("C17.init_ok", format!("mz_deflateInit2(level {}, window_bits {}, mem_level {}, strategy {}) = {}", level, wb, mem_level, strategy, rc));
         }
+        // a caller may keep totals of its own in the struct; accounting is about differences
+        let bias = s.c("total_bias") as c_ulong;
+        if bias != 0 {
+            strm.total_in = (1u64 << 32) as c_ulong - bias;
+            strm.total_out = (1u64 << 32) as c_ulong - bias / 2;
+        }
         let mk = || CompressorOxide::new(deflate_flags::TDEFL_COMPUTE_ADLER32 | create_comp_flags_from_zip_params(level, wb, strategy));
         let mut comp = mk();
         let n = plain.len();
@@ -346,6 +352,10 @@ fn fam_inflate(s: &Script, st: &mut Stats) -> Result<RunInfo, Violation> {
         if rc != 0 {
             return viol("C17.init_ok", format!("mz_inflateInit2({}) = {}", wb, rc));
         }
+        let bias = s.c("total_bias") as c_ulong;
+        let (base_in, base_out) = if bias != 0 { ((1u64 << 32) as c_ulong - bias, (1u64 << 32) as c_ulong - bias / 2) } else { (0, 0) };
+        strm.total_in = base_in;
+        strm.total_out = base_out;
         let mut state = InflateState::new_boxed_with_window_bits(wb);
         let n = m.len();
         let (mut delivered, mut pos) = (0usize, 0usize);
@@ -423,13 +433,13 @@ fn fam_inflate(s: &Script, st: &mut Stats) -> Result<RunInfo, Violation> {
                 break;
             }
         }
-        let ended = strm.total_out as usize == produced.len() && last_rc == MZStatus::StreamEnd as i32;
+        let ended = (strm.total_out - base_out) as usize == produced.len() && last_rc == MZStatus::StreamEnd as i32;
         if s.c("enc_len") > 0 {
             // C06 through the C entry point: total_in / next_in stop exactly at the end of the stream
             if !ended {
                 return viol("C06.completes", format!("[mz_inflate] valid stream + trailing bytes ended with rc {}", last_rc));
             }
-            if strm.total_in as usize != s.c("enc_len") as usize || pos != s.c("enc_len") as usize {
+            if (strm.total_in - base_in) as usize != s.c("enc_len") as usize || pos != s.c("enc_len") as usize {
                 return viol("C06.consumed_exact", format!("[mz_inflate] stream of {} bytes followed by {} trailing bytes: total_in = {}", s.c("enc_len"), n - s.c("enc_len") as usize, strm.total_in));
             }
         }
@@ -564,6 +574,15 @@ fn fam_tdefl(s: &Script, st: &mut Stats) -> Result<RunInfo, Violation> {
         }
         let mut sinkc: (Vec<u8>, i64, i64) = (Vec::new(), s.c("putfail"), 0);
         let user = &mut sinkc as *mut (Vec<u8>, i64, i64) as *mut c_void;
+        if s.c("reinit") != 0 {
+            // the object has been initialised before, with the other kind of sink
+            let rc0 = c::tdefl_init(cp.as_mut(), if use_cb { None } else { Some(collect_cb) }, user, (flags ^ 0x3) as c_int) as i32;
+            if rc0 != 0 {
+                c::tdefl_deallocate(cp);
+                return viol("C17.init_ok", format!("first tdefl_init = {}", rc0));
+            }
+            st.inc("probe.tdefl_reinit");
+        }
         let rc = c::tdefl_init(cp.as_mut(), if use_cb { Some(collect_cb) } else { None }, user, flags as c_int) as i32;
         if rc != 0 {
             c::tdefl_deallocate(cp);
@@ -1148,6 +1167,9 @@ pub fn gen_c17(rng: &mut Rng, _i: u64, tier: Tier) -> Script {
             s.set("strategy", rng.pick(&[0i64, 0, 0, 1, 2, 3, 4]));
             s.set("mem_level", rng.range(1, 9) as i64);
             s.set("init1", rng.chance(1, 3) as i64);
+            if rng.chance(1, 6) {
+                s.set("total_bias", rng.pick(&[1i64, 16, 1000, 70000, 1 << 20]));
+            }
             let n = psize(rng);
             let plain = gen::plaintext(rng, n);
             let style = rng.next_u64();
@@ -1163,6 +1185,9 @@ pub fn gen_c17(rng: &mut Rng, _i: u64, tier: Tier) -> Script {
             let zlib = rng.chance(2, 3);
             s.set("zlib", zlib as i64);
             s.set("init1", rng.chance(1, 3) as i64);
+            if rng.chance(1, 6) {
+                s.set("total_bias", rng.pick(&[1i64, 16, 1000, 70000, 1 << 20]));
+            }
             let target = psize(rng);
             let vs = valid_stream(rng, zlib, target, 32768, None);
             let n = vs.bytes.len();
@@ -1197,6 +1222,7 @@ pub fn gen_c17(rng: &mut Rng, _i: u64, tier: Tier) -> Script {
             }
             s.set("tdefl_flags", flags as i64);
             s.set("callback", rng.chance(1, 2) as i64);
+            s.set("reinit", rng.chance(1, 4) as i64);
             s.set("heap", rng.chance(1, 2) as i64);
             if s.c("callback") != 0 && rng.chance(1, 10) {
                 s.set("putfail", rng.range(1, 3) as i64);
